@@ -176,6 +176,21 @@ pub(crate) fn all_variants(rng: &mut Rng, a: &str, b: &str, with_single: bool) -
             v.push(Command::GetEx { key: a.clone(), ex, px, exat, pxat, persist });
         }
     }
+    // an INVALID value in every time option (<= 0, beyond i64 after the unit conversion): the reply is
+    // an error, so nothing — in particular no deadline — may have moved by then
+    for bad in [0i64, -1, i64::MIN, i64::MAX] {
+        for slot in 0..4 {
+            // PXAT accepts every positive value
+            if slot == 3 && bad > 0 {
+                continue;
+            }
+            let o = |i: usize| if i == slot { Some(bad) } else { None };
+            for flag in bools {
+                v.push(Command::GetEx { key: a.clone(), ex: o(0), px: o(1), exat: o(2), pxat: o(3), persist: flag });
+                v.push(Command::Set { key: a.clone(), value: payload(rng), ex: o(0), px: o(1), exat: o(2), pxat: o(3), nx: false, xx: false, get: flag, keepttl: false });
+            }
+        }
+    }
     v.push(Command::SetNx(a.clone(), payload(rng)));
     v.push(Command::Append(a.clone(), payload(rng)));
     v.push(Command::GetSet(a.clone(), payload(rng)));
